@@ -319,6 +319,36 @@ theorem expanded_fork_safe (c c' : Cfg) (s0 : St) (evs evs' : List Ev) (disk : L
     exact r.sh.holds a h ((cloneFork_holds _ disk a h).mp hh)
   · exact kill_safe c' (cloneFork (run c s0 evs) disk) evs' ok' ⟨rfl, rfl⟩ hv'
 
+/-- **construction_well_ordered.**  The hypothesis `wfOps` of the construction
+theorems follows from the shape of the call graph (`Scoped`: node ids are
+new when the node is constructed; the file references of inputs, the
+top-level return and the retains point to nodes constructed before). -/
+theorem construction_well_ordered (tr : PTree) (a : List Node) (sc : Scoped [] tr a) :
+    wfOps [] [] (opsOf tr) = true :=
+  wfOps_of_scoped sc
+
+/-- `Scoped` is decided by `scopedB` (evaluated by the driver for every pipestance built). -/
+theorem scoped_decided (tr : PTree) (a : List Node) (h : scopedB [] tr = some a) : Scoped [] tr a :=
+  scopedB_sound tr [] a h
+
+/-- `args_present_at_start_built` from the shape of the call graph alone. -/
+theorem args_present_at_start_scoped (tr : PTree) (known : List Node) (sc : Scoped [] tr known) (n : Node)
+    (ins : List Binding) (hs : HasStage tr n ins) (b : Binding) (hb : b ∈ ins) (p : Node) (a : Arg)
+    (hr : (p, a, true) ∈ typedRefs b.1 b.2) :
+    ∃ t, (p, t) ∈ build (opsOf tr) ∧
+      ∀ (c : Cfg) (disk : List DiskEnt) (evs : List Ev), CfgOK c (t.st disk) → c.volatile = true →
+        n ∉ (run c (t.st disk) evs).doneNodes →
+        ∀ d ∈ disk, isTmp d.kind = false → refs c a d.path = true → d ∈ (run c (t.st disk) evs).disk :=
+  args_present_at_start_built tr (wfOps_of_scoped sc) n ins hs b hb p a hr
+
+/-- Whatever a binding delivers names only files among `reach env e` — the
+names in the recorded values of the outputs it references; the driver
+evaluates `reach` against the `_args` of real jobs (every file name in a
+delivered argument must be in it). -/
+theorem delivered_names_reachable (env : Env) (e : BExp) (v : Val) (h : Delivers env false e v) :
+    ∀ s ∈ v.names, s ∈ reach env e :=
+  delivers_reach h
+
 /-- `cloneFork` (dynamic fork expansion) hands the new fork the same holder sets. -/
 theorem clone_keeps_holders (s : St) (disk : List DiskEnt) :
     (∀ a h, Holds (cloneFork s disk) a h ↔ Holds s a h) ∧ Fresh (cloneFork s disk) :=
@@ -415,6 +445,9 @@ example :
     ((build (opsOf exTree)).lookup "A").map (·.postNodes) = some [("B", ["o"])] ∧
     ((build (opsOf exTree)).lookup "B").map (·.fileArgs) = some [("o", [none])] := by
   refine ⟨by decide, .child (.next .here), .child (.stage (by simp)), by decide, by decide, by decide⟩
+
+/-- the example tree is scoped -/
+example : scopedB [] exTree = some ["TOP", "B", "A"] := by decide
 
 /-- delivery: a split of a reference delivers an element of what a fork produced, a merge collects -/
 example :
